@@ -69,7 +69,11 @@ def runFuzz (c : Case) : Res :=
 /-- Family `errvis` (C04, application level): visibility of the rejection in every output mode,
     prefix length, exclusion from the capital-gain totals. -/
 def runErrvis (c : Case) : Res :=
-  let tags := ["nt=C04", s!"secs={(kv? c.header "secs").getD "?"}", s!"nerr={(kv? c.header "nerr").getD "?"}"]
+  let nerr := ((kv? c.header "nerr").bind (·.toNat?)).getD 0
+  let nsec := ((kv? c.header "secs").bind (·.toNat?)).getD 0
+  -- for C08 the case matters when a rejected security stands next to a healthy one
+  let tags := [if nerr ≥ 1 && nsec > nerr then "nt=C04,C08" else "nt=C04",
+               s!"secs={(kv? c.header "secs").getD "?"}", s!"nerr={(kv? c.header "nerr").getD "?"}"]
   if c.lines.any (fun l => l.head? == some "impl" && l[1]? == some "panic") then
     { verdict := "DIFF", tags := "dk=panic" :: tags, msg := "an output mode panicked" }
   else
@@ -100,7 +104,11 @@ def runErrvis (c : Case) : Res :=
         | none => none)
     match badVis ++ badAgg ++ extraAgg with
     | [] => { verdict := "ok", tags := tags }
-    | m :: _ => { verdict := "ORACLE", tags := "of=C04" :: tags, msg := m }
+    | m :: _ =>
+      -- totals that lose a completed security or include a rejected one also break the
+      -- independence of securities (C08)
+      let ofs := if badVis.isEmpty then "of=C04,C08" else "of=C04"
+      { verdict := "ORACLE", tags := ofs :: tags, msg := m }
 
 def dispatch (c : Case) : Res :=
   match c.family with
